@@ -70,12 +70,18 @@ fn connectable_families(worlds: &[World], oracles: Vec<Oracle>) -> Vec<(Family, 
 /// terminal) pushes a further event into a hot source the pipeline is fed from. Real run only
 /// (reference-free oracles): the contract must hold whatever arrives *while a callback runs*.
 fn feedback_families(th: bool, last_pos: &[Op], oracles: Vec<Oracle>) -> Vec<(Family, usize)> {
+  feedback_families_x(th, last_pos, oracles, false)
+}
+
+/// `full`: terminals are fed back and terminal callbacks feed back even under a functional oracle
+fn feedback_families_x(th: bool, last_pos: &[Op], oracles: Vec<Oracle>, full: bool) -> Vec<(Family, usize)> {
   // with a functional oracle only items fed from item callbacks: which of two events wins when a
   // terminal is pushed *during* the delivery of an operator's last item is not fixed by any statement
   // (take emits then cancels, all cancels then emits; both are fine) - the contract oracle takes it all
   let needs_reference = oracles.iter().any(|o| matches!(o, Oracle::Functional | Oracle::Teardown | Oracle::Independence));
-  let trigs: Vec<Trig> = if needs_reference { vec![Trig::Item(1), Trig::Item(2)] } else { vec![Trig::Item(1), Trig::Item(2), Trig::Complete, Trig::Error] };
-  let fed: Vec<Ev> = if needs_reference { vec![Ev::n(9)] } else { vec![Ev::n(9), Ev::E(6), Ev::C] };
+  let restricted = needs_reference && !full;
+  let trigs: Vec<Trig> = if restricted { vec![Trig::Item(1), Trig::Item(2)] } else { vec![Trig::Item(1), Trig::Item(2), Trig::Complete, Trig::Error] };
+  let fed: Vec<Ev> = if restricted { vec![Ev::n(9)] } else { vec![Ev::n(9), Ev::E(6), Ev::C] };
   let mut w1 = vec![];
   for sc in wf_scripts(&[1, 2], 2, &[Ending::Complete, Ending::Error, Ending::Silent]) {
     for trig in trigs.iter().cloned() {
@@ -103,6 +109,29 @@ fn feedback_families(th: bool, last_pos: &[Op], oracles: Vec<Oracle>) -> Vec<(Fa
   let red = reduced_ops();
   let w1s: Arc<Vec<World>> = if th { w1.clone() } else { Arc::new(w1.iter().step_by(3).cloned().collect()) };
   fams.push((Family { name: "feedback, depth 2 (reduced catalogue)".into(), pipelines: depth2(&red, &red), worlds: w1s, oracles: oracles.clone() }, 2));
+  if !needs_reference {
+    // user code inside Item::clone: while the library clones the item it is delivering, the clone pushes
+    // a further event into the source (a terminal, say) - whatever is delivered must still obey the contract
+    let mut wc = vec![];
+    for fed in [Ev::C, Ev::E(6), Ev::n(9)] {
+      for k in [SrcKind::Hot, SrcKind::Subject, SrcKind::BehaviorSubject, SrcKind::ReplaySubject] {
+        for two_subscribers in [false, true] {
+          let mut acts = vec![Act::Sub(0)];
+          if two_subscribers {
+            acts.push(Act::Sub(1));
+          }
+          acts.push(Act::EmitCloneFeed(0, Ev::n(1), fed.clone()));
+          acts.push(Act::Emit(0, Ev::n(3)));
+          acts.push(Act::EmitCloneFeed(0, Ev::n(2), Ev::C));
+          wc.push(World { srcs: vec![k.clone()], acts });
+        }
+      }
+    }
+    let mut pc = vec![Node::Src(0)];
+    pc.extend(depth1(last_pos));
+    pc.extend(connectable_pipelines(false));
+    fams.push((Family { name: "user code inside Item::clone pushes into the source during the delivery".into(), pipelines: pc, worlds: Arc::new(wc), oracles: oracles.clone() }, 1));
+  }
   // two hot inputs of a combining operator; the callback feeds either of them
   let mut w2 = vec![];
   let per_src = wf_scripts(&[1], 1, &[Ending::Complete, Ending::Error, Ending::Silent]);
@@ -266,6 +295,27 @@ pub fn check(prop: &str, tier: &str) -> Option<Report> {
       }
       fams.extend(connectable_families(&w2, vec![Oracle::Functional]));
       fams.extend(inner_unsub_families(th, vec![Oracle::Functional]));
+      {
+        // feedback (an item / error / complete pushed from the item callback) through the operators
+        // that never end by themselves: for them the order of "update my state" and "hand the item on"
+        // is visible - and fixed by their definition - when the source terminates during the delivery
+        let passive: Vec<Op> = last_pos
+          .iter()
+          .filter(|o| {
+            !matches!(
+              o,
+              Op::Take(_) | Op::First | Op::TakeWhile(_) | Op::ElementAt(_) | Op::Contains(_) | Op::All(_) | Op::DematInBand(..) | Op::Retry(_) | Op::RetryWhen(_) | Op::OnErrorResumeNext(_) | Op::TimeInterval | Op::Window(_) | Op::GroupByParity
+            )
+          })
+          .cloned()
+          .collect();
+        // (not over Behavior/ReplaySubject: there the first item is the hand-over inside subscribe, and what a
+        // push made during the hand-over means for the newcomer is C12's recorded finding)
+        for (mut f, d) in feedback_families_x(th, &passive, vec![Oracle::Functional], true).into_iter().take(1) {
+          f.worlds = Arc::new(f.worlds.iter().filter(|w| matches!(w.srcs[0], SrcKind::Hot | SrcKind::Subject)).cloned().collect());
+          fams.push((f, d));
+        }
+      }
       run_families(prop, &mut r, fams);
     }
     "C01" => {
@@ -928,6 +978,11 @@ pub fn c07_slice(r: &mut Report, tier: &str) {
   // callbacks that re-enter the library on the same thread: push into a source the pipeline is fed
   // from (either input of a combining operator), unsubscribe their own subscription, end an inner observable
   for (mut f, d) in feedback_families(th, &last_pos, vec![]).into_iter().chain(self_unsub_families(th, &last_pos, vec![])).chain(inner_unsub_families(th, vec![])) {
+    if f.name.starts_with("user code inside Item::clone") {
+      // C07 speaks of callbacks that re-enter the library; an Item::clone that does is C01's
+      // business only (the contract must survive it), not a promise about the library's locks
+      continue;
+    }
     f.name = format!("monitor slice: {}", f.name);
     fams.push((f, d));
   }
